@@ -156,8 +156,21 @@ func (p *Parser) ParseConditionalExpression() *ConditionalExpression {
 		return stmt
 	}
 
+	stmt.Expression = p.parseExpression(precedenceValueLowset)
+
+	p.nextToken()
+
+	// the whole input must be one expression: tokens left over after it (a second expression,
+	// a keyword in another letter case taken for a name, a stray parenthesis) are an error
 	for p.curToken.Type != EOF {
-		stmt.Expression = p.parseExpression(precedenceValueLowset)
+		errorsBefore := len(p.errors)
+
+		p.parseExpression(precedenceValueLowset)
+
+		if len(p.errors) == errorsBefore {
+			msg := fmt.Sprintf("Syntax error; unexpected token after the expression, near: %q", p.curToken.Literal)
+			p.errors = append(p.errors, msg)
+		}
 
 		p.nextToken()
 	}
